@@ -216,7 +216,10 @@ static void apply_op(State& st, uint64_t acc, uint64_t a, uint64_t b, size_t opi
   };
   if (acc == A_GO) {
     r.go(a);
-    exp_cur = a;
+    // go() has no stated post-condition beyond "an explicit go() past the end" being the one way to get there: a go() that clamps
+    // the cursor to the end of the data is as good as one that parks it beyond
+    exp_cur = (a > n && r.where() == n) ? n : a;
+    if (a > n && r.where() == n) ctx().cls("go beyond the end: clamped to the end");
     ctx().cls(a <= n ? "acc:go inside" : "acc:go beyond the end");
   } else if (acc >= A_PGETV && acc <= A_PGET_T) {
     uint64_t off = a, size = b;
@@ -634,7 +637,8 @@ static void run_reader_case(const Case& c, bool single) {
     const StringReader& r = *st.r;
     std::string how = cat("StringReader", kCtorName[ctor], with_offset ? cat(" with offset ", start) : std::string(), " over ", len, " bytes");
     VCHECK(r.size() == len, cat("ctor-size:", kCtorName[ctor]), how, ": size() is ", r.size());
-    VCHECK(r.where() == start, cat("ctor-cursor:", kCtorName[ctor]), how, ": where() is ", r.where());
+    VCHECK(r.where() == start || (start > len && r.where() == len), cat("ctor-cursor:", kCtorName[ctor]), how, ": where() is ", r.where());
+    if (r.where() != start) start = r.where(); // (an offset beyond the data may be clamped to its end, like go())
     VCHECK(r.pread(0, SIZE_MAX) == slice(st, 0, len), cat("ctor-content:", kCtorName[ctor]), how, ": pread(0, SIZE_MAX) differs from the data");
     st.cur = start;
   }
@@ -699,6 +703,7 @@ static void run_bw(const Case& c) {
   memset(blk.get() + G, 0xCD, cap);
   BufferWriter w(blk.get() + G, cap);
   uint64_t cur = 0;
+  bool seq_overflowed = false;
   bool interesting = false;
   size_t nops = (c.n.size() - 2) / 3;
   for (size_t k = 0; k < nops; k++) {
@@ -758,6 +763,13 @@ static void run_bw(const Case& c) {
       what = e.what();
     }
     auto ctxt = [&]() { return cat(" [op #", k, " ", name, " offset=", off, " size=", size, " capacity=", cap, "]"); };
+    if (in && threw && cursor_op && seq_overflowed) {
+      // "either stores inside its buffer or throws": after a sequential write that did not fit, a writer may count as full and refuse
+      // later sequential writes too (the record stream is broken anyway) - counted, the model is left as it is
+      ctx().cls("bw:sequential write refused after an earlier overflow");
+      continue;
+    }
+    if (!in && cursor_op) seq_overflowed = true;
     if (in) {
       VCHECK(!threw, cat("in-range-throws:", name), name, " threw (", what, ") for a write inside the buffer", ctxt());
       memcpy(model.data() + off, payload.data(), size);
